@@ -17,8 +17,8 @@ RULE = ('logit matrices T(3-40) x C(3-12): dense at several temperatures, sparse
 ASSUMPTIONS = ['shift invariance is judged on matrices whose entries are all stored (sparse-with-floor replaces pruned entries by a fixed floor, so a shift of the stored ones is not a shift of "all logits of the frame")',
                'no stored logit is exactly 0.0', 'tolerance 1e-9 (float64)']
 N = {'quick': 3000, 'thorough': 100000}
-CLASSES = ['dense', 'dense_peaky', 'sparse_floor', 'onehot', 'transformer', 'bag', 'bag_lm', 'bag_extreme', 'threshold', 'alto_wc', 'tiny_logits', 'alto_word_onehot', 'parser_update', 'long_line']
-REQUIRED = ['lines_over_1000_frames', 'word_onehot_lines', 'parser_updates', 'tiny_logit_lines', 'repeated_calls_checked', 'bag_history_steps', 'repo_tests_under_contracts', 'line_conf_checked', 'shift_checked', 'onehot_checked', 'letter_conf_checked', 'page_conf_checked', 'bag_checked', 'monotone_checked', 'wc_checked',
+CLASSES = ['dense', 'dense_peaky', 'sparse_floor', 'onehot', 'transformer', 'bag', 'bag_lm', 'bag_extreme', 'threshold', 'alto_wc', 'tiny_logits', 'alto_word_onehot', 'parser_update', 'long_line', 'window_equals_text', 'merged_confidences']
+REQUIRED = ['merged_line_confidences_checked', 'page_decoder_thresholds_checked', 'window_equals_text_lines', 'lines_over_1000_frames', 'word_onehot_lines', 'parser_updates', 'tiny_logit_lines', 'repeated_calls_checked', 'bag_history_steps', 'repo_tests_under_contracts', 'line_conf_checked', 'shift_checked', 'onehot_checked', 'letter_conf_checked', 'page_conf_checked', 'bag_checked', 'monotone_checked', 'wc_checked',
             'contract:get_line_confidence in [0,1], one per label', 'contract:posteriors <= 0 and sum to 1', 'contract:compute_line_confidence in [0,1]']
 TOL = 1e-9
 
@@ -45,6 +45,17 @@ def gen(rng, i, ctx):
         return {'cls': cls, 'words': [w1, w2], 'onehot_word': int(rng.integers(0, 2)), 'seed': int(rng.integers(0, 1 << 30))}
     if cls == 'parser_update':
         return {'cls': cls, 'seed': int(rng.integers(0, 1 << 30)), 'n': int(rng.integers(1, 5))}
+    if cls == 'merged_confidences':
+        return {'cls': cls, 'seed': int(rng.integers(0, 1 << 30)), 'engines': int(rng.integers(1, 4)), 'lines': int(rng.integers(1, 5))}
+    if cls == 'window_equals_text':
+        # a CTC line whose own frame window holds exactly one frame per character (no blank, no repeated frame), inside a longer padded matrix
+        n = int(rng.integers(2, 12))
+        labs = []
+        while len(labs) < n:
+            c = int(rng.integers(0, 5))
+            if not labs or c != labs[-1]:
+                labs.append(c)
+        return {'cls': cls, 'labels': labs, 'pad': [int(rng.integers(1, 9)), int(rng.integers(0, 6))], 'seed': int(rng.integers(0, 1 << 30))}
     C = int(rng.integers(3, 13))
     L = int(rng.integers(1, 9))
     if cls == 'long_line':
@@ -146,6 +157,10 @@ def check(case, mon, ctx):
         return check_word_onehot(case, mon, ctx)
     if cls == 'parser_update':
         return check_parser_update(case, mon, ctx)
+    if cls == 'window_equals_text':
+        return check_window_equals_text(case, mon, ctx)
+    if cls == 'merged_confidences':
+        return check_merged_confidences(case, mon, ctx)
     lg, labels = case['logits'], case['labels']
     C = lg.shape[1]
     if len(labels) >= 2:
@@ -252,6 +267,21 @@ def check(case, mon, ctx):
         exp = [w > t for t in ths]
         if any(a != b and abs(w - t) > 1e-9 for a, b, t in zip(r, exp, ths)):
             mon.violation('threshold-is-worst-best-posterior', {'thresholds': ths, 'results': r, 'worst_best_posterior': w})
+        # the same test as the page decoder applies it: a confident line keeps its incoming text and is not decoded
+        class Dec:
+            def __call__(self, logits, **kw):
+                raise KeyError('decoded')
+        line = ctx.layout.TextLine(id='l', logits=stored, characters=[chr(97 + k) for k in range(C - 1)] + ['_'], transcription='KEPT')
+        kept = []
+        for t in ths:
+            pd = ctx.pp.PageDecoder(Dec(), line_confidence_threshold=t)
+            try:
+                kept.append(pd.decode_line(line) == 'KEPT')
+            except KeyError:
+                kept.append(False)
+        mon.count('page_decoder_thresholds_checked', len(ths))
+        if any((not a) and b for a, b in zip(kept, kept[1:])) or any(a != b and abs(w - t) > 1e-9 for a, b, t in zip(kept, exp, ths)):
+            mon.violation('threshold-monotone', {'via': 'PageDecoder.decode_line', 'thresholds': ths, 'line_kept': kept, 'worst_best_posterior': w})
 
 
 def check_alto(case, mon, ctx):
@@ -416,4 +446,87 @@ def check_parser_update(case, mon, ctx):
         if got is None or not in_unit(got) or abs(float(got) - want) > 1e-9:
             mon.violation('computed-from-normalised-posteriors', {'function': 'PageParser.process_page / update_confidences', 'posteriors': mode, 'confidence_before': old,
                           'confidence_after': got, 'expected': want})
+    mon.mark_nontrivial()
+
+
+def check_window_equals_text(case, mon, ctx):
+    """one-hot posteriors inside the line's own window (one frame per character), confident foreign characters in the padding around it: every
+    character, the line and every exported word must get confidence 1, as the exporters call it (window of the log-posteriors passed in)"""
+    L = ctx.layout
+    rng = np.random.default_rng(case['seed'])
+    chars = list('abcde')
+    C = len(chars) + 1
+    labels = case['labels']
+    p0, p1 = case['pad']
+    n = len(labels)
+    lg = np.full((p0 + n + p1, C), -60.0)
+    lg[np.arange(p0, p0 + n), labels] = 40.0
+    for t in list(range(p0)) + list(range(p0 + n, p0 + n + p1)):
+        lg[t] = rng.normal(size=C) * 2.0              # the padding: diffuse, says nothing about this line's characters
+    lg[lg == 0] = 0.01
+    text = ''.join(chars[c] for c in labels)
+    baseline, heights, poly = genlib.straight_line_geometry(rng)
+    line = L.TextLine(id='r1-l1', baseline=baseline, polygon=poly, heights=heights, transcription=text, logits=sparse.csc_matrix(lg),
+                      characters=chars + ['<blank>'], logit_coords=[p0, p0 + n])
+    window = line.get_full_logprobs()[p0:p0 + n]
+    mon.count('window_equals_text_lines')
+    mon.mark_nontrivial()
+    al = ctx.fa.align_text(-window, np.array(labels), C - 1) if hasattr(ctx, 'fa') else None
+    for name, args in (('window passed in', (line, np.array(labels), None, window)), ('window and alignment passed in', (line, np.array(labels), al, window))):
+        if args[2] is None and name.startswith('window and'):
+            continue
+        c = ctx.ce.get_line_confidence(*args)
+        mon.count('line_conf_checked')
+        if not in_unit(c) or len(c) != n or np.abs(np.asarray(c) - 1.0).max() > 1e-6:
+            mon.violation('one-hot-gives-1', {'function': 'get_line_confidence (%s)' % name, 'text': text, 'window': [p0, p0 + n], 'frames': int(lg.shape[0]), 'confidences': c})
+    page = L.PageLayout(id='p', page_size=(1500, 2000))
+    reg = L.RegionLayout('r1', np.array([[0, 0], [2000, 0], [2000, 1500], [0, 1500]]))
+    reg.lines.append(line); page.regions.append(reg)
+    xml = page.to_altoxml_string(min_line_confidence=0.5)
+    wc = [float(x) for x in re.findall(r'\bWC="([^"]*)"', xml)]
+    if not wc or any(abs(w - 1.0) > 0.006 for w in wc):
+        mon.violation('one-hot-gives-1', {'function': 'ALTO export with min_line_confidence=0.5', 'text': text, 'word_confidences': wc, 'line_confidence': line.transcription_confidence})
+
+
+def check_merged_confidences(case, mon, ctx):
+    """confidences reported by the engine-merging script (written to PAGE XML as conf=): None or a number in [0, 1], also for lines that no engine transcribed"""
+    import importlib.util
+    import os
+    L = ctx.layout
+    if not hasattr(ctx, 'merge_mod'):
+        spec = importlib.util.spec_from_file_location('vf_c16_merge', os.path.join(ctx.repo, 'user_scripts', 'merge_ocr_results.py'))
+        ctx.merge_mod = importlib.util.module_from_spec(spec)
+        spec.loader.exec_module(ctx.merge_mod)
+    rng = np.random.default_rng(case['seed'])
+    chars = list('abcd')
+    C = len(chars) + 1
+    layouts = []
+    empties = rng.random(case['lines']) < 0.4            # lines that stay without text in every engine
+    for e in range(case['engines']):
+        pl = L.PageLayout(id='p', page_size=(100, 100))
+        reg = L.RegionLayout('r', np.array([[0, 0], [10, 0], [10, 10]]))
+        for k in range(case['lines']):
+            labels = [int(x) for x in rng.integers(0, C - 1, size=int(rng.integers(1, 6)))]
+            path = genlib.path_for_labels(rng, labels, C - 1)
+            lg = genlib.logits_for_path(rng, path, C, mode=str(rng.choice(['onehot', 'noisy', 'peaky', 'diffuse'])))
+            text = '' if (empties[k] or rng.random() < 0.2) else ''.join(chars[c] for c in labels)
+            if empties[k] and rng.random() < 0.5:
+                text = None
+            reg.lines.append(L.TextLine(id='l%d' % k, logits=sparse.csc_matrix(lg), characters=chars + ['_'], logit_coords=[0, len(path)], transcription=text))
+        pl.regions.append(reg)
+        layouts.append(pl)
+    try:
+        ctx.merge_mod.merge_layouts(layouts)
+    except Exception as e:
+        mon.violation('code-under-test-raises', {'function': 'merge_layouts', 'exception': repr(e)[:200]})
+        return
+    xml = layouts[0].to_pagexml_string()
+    for line in layouts[0].lines_iterator():
+        mon.count('merged_line_confidences_checked')
+        c = line.transcription_confidence
+        if c is not None and not in_unit(c):
+            mon.violation('merged-line-confidence-in-unit-interval', {'line': line.id, 'transcription': line.transcription, 'confidence': float(c), 'engines': case['engines']})
+    bad = [x for x in re.findall(r'conf="([^"]*)"', xml) if not (0.0 <= float(x) <= 1.0)]
+    if bad:
+        mon.violation('merged-line-confidence-in-unit-interval', {'written_to_page_xml': bad[:4]})
     mon.mark_nontrivial()
